@@ -7,7 +7,7 @@ from . import core
 
 SAN_FLAGS = ["-O1", "-g0", "-fsanitize=address,undefined,float-cast-overflow", "-fno-sanitize-recover=all",
              "-fno-omit-frame-pointer"]
-SAN_ENV = {"ASAN_OPTIONS": "detect_leaks=0:abort_on_error=1:allocator_may_return_null=1:handle_abort=0",
+SAN_ENV = {"ASAN_OPTIONS": "detect_leaks=0:abort_on_error=1:allocator_may_return_null=1:handle_abort=0:quarantine_size_mb=16:thread_local_quarantine_size_kb=64:malloc_context_size=0",
            "UBSAN_OPTIONS": "print_stacktrace=0:halt_on_error=1:abort_on_error=1"}
 CFG = ("g++", "c++17")
 
